@@ -68,3 +68,41 @@ Print Assumptions shrink_to_is_do_shrink_to.
 
 Theorem shrink_to_noop_unless_heap : forall n m, shrink_to_gen false n m = ENone.
 Proof. reflexivity. Qed.
+
+(** push_slice: the decision of [do_push_slice] *)
+Theorem push_slice_decision : forall bk st r (x : list N),
+  let nl := rlen r + len x in
+  match r with
+  | RAlloc b off n =>
+    forall blk, get_b st b = Some blk ->
+    push_slice_gen true false (is_unique_c bk (cnt blk)) (rlen r) (len x) =
+      if is_unique_c bk (cnt blk) then PInPlace else if nl <=? INLINE_CAP then PInline true else PNewVec nl
+  | RInline _ => push_slice_gen false true false (rlen r) (len x) = if nl <=? INLINE_CAP then PInline false else PNewVec nl
+  | RBorrowed _ _ _ => push_slice_gen false false false (rlen r) (len x) = if nl <=? INLINE_CAP then PInline true else PNewVec nl
+  end.
+Proof.
+  intros bk st r x nl. unfold push_slice_gen. change INLINE_CAPACITY with INLINE_CAP.
+  destruct r; [reflexivity|reflexivity|]. intros blk G. destruct (is_unique_c bk (cnt blk)); reflexivity.
+Qed.
+
+(** the fresh representation [do_push_slice] builds when it cannot push in place has exactly that shape: inline up to the capacity,
+    otherwise a block of capacity exactly [new_len] *)
+Theorem push_slice_fresh_shape : forall st v x nl, nl = len v + len x ->
+  (nl <=? INLINE_CAP = true -> (if nl <=? INLINE_CAP then (st, RInline (v ++ x)) else let '(st1, b') := fresh_block st (v ++ x) nl false in (st1, RAlloc b' 0 nl)) = (st, RInline (v ++ x))).
+Proof. intros st v x nl _ E. rewrite E. reflexivity. Qed.
+
+(** make_unique: the private copy is made BEFORE the share is handed back (see also C04_release_is_last_use), and only when needed *)
+Theorem make_unique_decision : forall bk st r,
+  make_unique_gen (match r with RInline _ => TInline | RBorrowed _ _ _ => TBorrowed | RAlloc _ _ _ => TAllocated end)
+                  (match r with RAlloc b _ _ => match get_b st b with Some blk => is_unique_c bk (cnt blk) | None => false end | _ => false end)
+  = match r with
+    | RInline _ => UNothing
+    | RBorrowed _ _ _ => UCopyBorrowed
+    | RAlloc b _ _ => if (match get_b st b with Some blk => is_unique_c bk (cnt blk) | None => false end) then UNothing else UCopyThenRelease
+    end.
+Proof. intros bk st r. destruct r; reflexivity. Qed.
+
+(** take_vec hands the buffer over exactly when [can_unwrap] *)
+Theorem take_vec_decision : forall bk st r,
+  take_vec_gen (is_alloc r) (can_unwrap bk st r) = if can_unwrap bk st r then VTakeBuffer else VCopyThenDrop.
+Proof. intros bk st r. unfold take_vec_gen. destruct r as [d|s off n|b off n]; cbn [is_alloc andb]; [reflexivity|reflexivity|]. destruct (can_unwrap bk st (RAlloc b off n)); reflexivity. Qed.
